@@ -1,0 +1,21 @@
+//! Verification-only hooks (cargo feature `verif-hooks`, off by default).
+//!
+//! Used by an external runtime-monitoring harness. Nothing in this module is
+//! compiled into normal builds.
+
+use std::cell::Cell;
+
+thread_local! {
+    static CREATED_AT: Cell<Option<u64>> = const { Cell::new(None) };
+}
+
+/// Pin the `created_at` of every kind-445 wrapper event built on this thread
+/// (sticky until changed). `None` restores the wall clock.
+pub fn set_created_at(ts: Option<u64>) {
+    CREATED_AT.with(|c| c.set(ts));
+}
+
+/// The currently pinned wrapper timestamp of this thread, if any.
+pub fn created_at() -> Option<u64> {
+    CREATED_AT.with(|c| c.get())
+}
